@@ -604,5 +604,16 @@ def gen_req(rng, uid, cfg, nodes, ntags, preplaced):
             if gpr and gpn:
                 gp = [[rng.randrange(gpn), gpr if gpr < 64 else 64]]
             slots.append([ni, cores, gp, lfs, mem])
+        if rng.random() < 0.2:
+            # a placement that names a node, core or gpu the pilot does not have (not the first slot where there
+            # are several: whatever was marked for the earlier ones must not stay, nor be given back twice)
+            k = rng.randrange(1, len(slots)) if len(slots) > 1 else 0
+            bad = rng.choice(['node', 'core', 'gpu'] if gpn else ['node', 'core'])
+            if bad == 'node':
+                slots[k][0] = len(nodes) + rng.choice([0, 3])
+            elif bad == 'core':
+                slots[k][1] = sorted(set(slots[k][1][:-1] + [cpn + rng.choice([0, 2])]))
+            else:
+                slots[k][2] = [[gpn + rng.choice([0, 1]), 64]]
     return {'uid': uid, 'ranks': ranks, 'cpr': cpr, 'gpr': gpr, 'lfs': lfs, 'mem': mem, 'rpn': rpn,
             'prio': prio, 'colo': colo, 'excl': excl, 'env': env, 'slots': slots}
